@@ -188,6 +188,15 @@ func (e *Exec) decideAction(fn *ssa.Function) *fnAction {
 		}
 		return &fnAction{kind: actStub, name: key}
 	}
+	if pp == lmdbPkg {
+		if lmdbExec[key] && fn.Blocks != nil {
+			return &fnAction{kind: actExec, name: key}
+		}
+		if strings.HasSuffix(key, ".Error") {
+			return &fnAction{kind: actStub, name: key}
+		}
+		return &fnAction{kind: actUnsupported, name: key}
+	}
 	if hasAnyPrefix(pp, e.extraStub()) {
 		return &fnAction{kind: actStub, name: key}
 	}
@@ -217,6 +226,7 @@ var stubFuncs = map[string]bool{
 	"(*sync.RWMutex).Lock": true, "(*sync.RWMutex).Unlock": true, "(*sync.RWMutex).RLock": true, "(*sync.RWMutex).RUnlock": true,
 	"(*sync.WaitGroup).Add": true, "(*sync.WaitGroup).Done": true, "(*sync.WaitGroup).Wait": true,
 	"time.Sleep": true,
+	repoMod + "/lmdbenv/strategy.init#1": true,
 	repoMod + "/utils.GC": true,
 	repoMod + "/utils.DisplayASCII": true,
 	"(*" + repoMod + "/syncer.NativeIterator).logDebugValue": true,
